@@ -1744,4 +1744,17 @@ theorem convert_flat_full (raw : List Obj) (h : Relocatable raw) :
         rw [hpre] at this
         cases this
 
+
+/-- the executable check of `Spec/C25.lean` establishes the hypotheses -/
+theorem relocatable_of_check (raw : List Obj) (h : relocatableB raw = true) : Relocatable raw := by
+  unfold relocatableB at h
+  simp only [Bool.and_eq_true, decide_eq_true_eq, List.all_eq_true, beq_iff_eq, Bool.not_eq_true',
+    Bool.or_eq_true, Option.isNone_iff_eq_none] at h
+  obtain ⟨⟨⟨⟨h1, h2⟩, h3⟩, h4⟩, h5⟩ := h
+  refine ⟨h1, h2, h3, h4, ?_⟩
+  intro a ha b hb e
+  rcases h5 a ha b hb with h | h
+  · exact absurd e (by simpa using h)
+  · exact h
+
 end Pkgcore.C25
